@@ -3,7 +3,7 @@
    specification: IW.JSON.PatchSpec (rfc6902 over pure values; `strict` = the RFC, `lenient` = the library's reading). *)
 Require Import ZArith List Bool.
 Require Import IW.Lib.CInt IW.UT.Conv IW.JSON.Val IW.JSON.Patch IW.JSON.PatchSpec IW.JSON.Patch_proofs IW.Gen.Facts.
-Require Import IW.JSON.Binn IW.JSON.Merge IW.JSON.WriteBack IW.JSON.WriteBack_proofs.
+Require Import IW.JSON.Binn IW.JSON.Merge IW.JSON.WriteBack IW.JSON.WriteBack_proofs IW.JSON.PatchExt_proofs IW.JSON.PatchDecode_proofs.
 Import ListNotations. Local Open Scope Z_scope.
 
 (* trees built by jbn_from_json / _jbl_node_from_binn (`of_val`) satisfy "cached index = position, cached key length =
@@ -333,3 +333,174 @@ Example C15_ex_writeback_after_ops :
   representable (JArr [JObj [([110;97;109;101], JNull); ([120], JNull); ([78;97;109;69], JNull)]]) = false /\
   representable (JObj [([110;97;109;101], JNull); ([78;97;109;101;115], JNull); ([195;169], JNull); ([195;137], JNull)]) = true.
 Proof. cbv zeta. repeat split; vm_compute; reflexivity. Qed.
+
+(* ================================================================== deepening round: ALL operation kinds, ALL documents, ALL
+   operation lists.  What made C15_patch_program_rfc_partial partial, named and removed or refuted:
+     (1) `ops_ok` restricted the kinds to the six of rfc6902: the kinds are now unrestricted (C15_patch_any_program_exact states
+         the outcome of every program of add/remove/replace/move/copy/test/increment/add_create/swap and of operation objects
+         without "op"); for the RFC direction the restriction is not a hypothesis but a consequence (C15_patch_program_rfc);
+     (2) only one direction ("the RFC applies it => the library gives that result"): the converse "otherwise an error" is FALSE
+         (C15_rfc_error_otherwise_refuted: the library reads array indices with iwatoi, "-" as the last element, ...); what holds
+         instead is exactness against lib_program in both directions;
+     (3) pointers were taken as parsed: C15_patch_text_total starts from the pointer TEXT (_jbl_ptr_pool = rfc6901 except that a
+         pointer ending in "/" is rejected; any unacceptable pointer => JBL_ERROR_JSON_POINTER with nothing applied);
+     (4) `no_root_alias` stays as the one hypothesis of the RFC direction; it is necessary (C15_patch_single_op_rfc_refuted);
+     (5) the tree after a failing call was not stated: C15_failed_op_leaves_tree (atomic kinds), C15_failed_program_is_prefix,
+         C15_failed_move_loses_source_refuted (move and value-less replace are NOT atomic on the tree; the binary form is
+         untouched by any failure: C15_patch_failure_unchanged). *)
+
+Definition lib_program_of (fo : fops) := lib_program lenient (f_eq fo) (f_add fo) (f_of_i fo) (f_to_i fo).
+
+(* one operation of ANY kind on ANY document: exact against the library's complete reading, invariant re-established *)
+Theorem C15_patch_any_op_exact : forall fo t o, klidx_inv t -> op_good o ->
+  match lib_op lenient (f_eq fo) (f_add fo) (f_of_i fo) (f_to_i fo) (doc_val t) (sop_of o) with
+  | Some d' => fst (apply_op fo t o) = RcOk /\ doc_val (snd (apply_op fo t o)) = d' /\ klidx_inv (snd (apply_op fo t o))
+  | None => fst (apply_op fo t o) <> RcOk /\ klidx_inv (snd (apply_op fo t o))
+  end.
+Proof. exact apply_op_lib. Qed.
+Print Assumptions C15_patch_any_op_exact.
+
+Theorem C15_patch_any_program_exact : forall fo l t, Forall op_good l -> klidx_inv t ->
+  match lib_program_of fo (doc_val t) (map sop_of l) with
+  | Some d' => fst (apply_ops fo t l) = RcOk /\ doc_val (snd (apply_ops fo t l)) = d' /\ klidx_inv (snd (apply_ops fo t l))
+  | None => fst (apply_ops fo t l) <> RcOk /\ klidx_inv (snd (apply_ops fo t l))
+  end.
+Proof. exact apply_ops_lib. Qed.
+Print Assumptions C15_patch_any_program_exact.
+
+(* the RFC direction for every operation list: no restriction on the kinds (an RFC result exists only for rfc6902 kinds) *)
+Theorem C15_patch_program_rfc : forall fo l t d',
+  Forall op_good l -> Forall no_root_alias (map sop_of l) -> klidx_inv t ->
+  rfc_program strict (f_eq fo) (doc_val t) (map sop_of l) = Some d' ->
+  fst (apply_ops fo t l) = RcOk /\ doc_val (snd (apply_ops fo t l)) = d' /\ klidx_inv (snd (apply_ops fo t l)).
+Proof. exact patch_program_rfc_all. Qed.
+Print Assumptions C15_patch_program_rfc.
+
+(* "an error otherwise" is false of the model and of the library: [1,2,3,4] with remove "/01" is no rfc6901 array index, the
+   library removes item 1 (replayed: rc=ok doc=[1,3,4]) *)
+Theorem C15_rfc_error_otherwise_refuted : exists fo t o,
+  rfc_kind (p_op o) /\ klidx_inv t /\ op_good o /\ no_root_alias (sop_of o) /\
+  rfc_op strict (f_eq fo) (doc_val t) (sop_of o) = None /\ fst (apply_op fo t o) = RcOk.
+Proof.
+  exists ex_fo, ex_doc, {| p_op := ORemove; p_path := [[48; 49]]; p_from := None; p_val := None |}.
+  split; [right; left; reflexivity|]. split; [apply of_val_inv1|]. split; [intros v H; discriminate|].
+  split; [split; [discriminate | intros [H|H]; discriminate]|]. split; reflexivity.
+Qed.
+Print Assumptions C15_rfc_error_otherwise_refuted.
+
+(* the invariant holds after every program of any operations, successful or not *)
+Theorem C15_klidx_inv_all_ops : forall fo l t, Forall op_good l -> klidx_inv t -> klidx_inv (snd (apply_ops fo t l)).
+Proof. exact klidx_inv_all_ops. Qed.
+Print Assumptions C15_klidx_inv_all_ops.
+
+(* pointers as text: _jbl_ptr_pool accepts exactly the rfc6901 pointers that do not end in "/" (more than one character),
+   reads them as rfc6901 does, and answers JBL_ERROR_JSON_POINTER otherwise *)
+Theorem C15_pointer_text_is_rfc6901 : forall s,
+  ptr_parse s = match lib_ptr s with Some l => PtrOk l | None => PtrErr end /\
+  (forall l, lib_ptr s = Some l -> rfc6901 s = Some l).
+Proof. intro s. split; [apply ptr_parse_spec | apply lib_ptr_rfc6901]. Qed.
+Print Assumptions C15_pointer_text_is_rfc6901.
+
+Theorem C15_pointer_trailing_slash_refuted : exists s l, rfc6901 s = Some l /\ ptr_parse s = PtrErr.
+Proof. exists [47; 97; 47], [[97]; []]. split; reflexivity. Qed.
+Print Assumptions C15_pointer_trailing_slash_refuted.
+
+(* jbn_patch on pointer text, every document, every operation list: all pointers are parsed before anything is applied *)
+Theorem C15_patch_text_total : forall fo t raw, klidx_inv t -> Forall raw_good raw ->
+  match lib_parse raw with
+  | None => patch_node fo t raw = (RcPtr, t)
+  | Some sops =>
+    match lib_program_of fo (doc_val t) sops with
+    | Some d' => fst (patch_node fo t raw) = RcOk /\ doc_val (snd (patch_node fo t raw)) = d' /\ klidx_inv (snd (patch_node fo t raw))
+    | None => fst (patch_node fo t raw) <> RcOk /\ klidx_inv (snd (patch_node fo t raw))
+    end
+  end.
+Proof. exact patch_node_total. Qed.
+Print Assumptions C15_patch_text_total.
+
+(* the tree after a failing operation: unchanged for add, remove, copy, test, increment, add_create, swap and op-less objects *)
+Theorem C15_failed_op_leaves_tree : forall fo t o, klidx_inv t -> op_good o -> atomic_kind (p_op o) ->
+  fst (apply_op fo t o) <> RcOk -> snd (apply_op fo t o) = t.
+Proof. exact op_failure_atomic. Qed.
+Print Assumptions C15_failed_op_leaves_tree.
+
+(* ... but NOT for move (the source is unlinked before the target's parent is looked up) and for replace without a value (the
+   target is unlinked before the value is asked for): {"a":1} with move /a -> /x/y reports JBL_ERROR_PATCH_TARGET_INVALID and
+   leaves {} (replayed on the library: rc=tinvalid doc={}); {"a":1,"b":2} with a value-less replace /a leaves {"b":2} *)
+Theorem C15_failed_move_loses_source_refuted : exists fo t o1 o2,
+  klidx_inv t /\ op_good o1 /\ op_good o2 /\ p_op o1 = OMove /\ p_op o2 = OReplace /\
+  fst (apply_op fo t o1) = RcTargetInvalid /\ doc_val (snd (apply_op fo t o1)) = Some (JObj [([98], JI64 2)]) /\
+  fst (apply_op fo t o2) = RcNoValue /\ doc_val (snd (apply_op fo t o2)) = Some (JObj [([98], JI64 2)]) /\
+  doc_val t = Some (JObj [([97], JI64 1); ([98], JI64 2)]).
+Proof.
+  exists ex_fo, (of_val 0 [] (JObj [([97], JI64 1); ([98], JI64 2)])),
+         {| p_op := OMove; p_path := [[120]; [121]]; p_from := Some [[97]]; p_val := None |},
+         {| p_op := OReplace; p_path := [[97]]; p_from := None; p_val := None |}.
+  split; [apply of_val_inv1|]. split; [intros v H; discriminate|]. split; [intros v H; discriminate|].
+  repeat split; reflexivity.
+Qed.
+Print Assumptions C15_failed_move_loses_source_refuted.
+
+(* a failing program: the operations before the failing one are applied (tree API), then the failing operation's own outcome *)
+Theorem C15_failed_program_is_prefix : forall fo l t, fst (apply_ops fo t l) <> RcOk ->
+  exists l1 o l2 t1, l = l1 ++ o :: l2 /\ apply_ops fo t l1 = (RcOk, t1) /\ apply_op fo t1 o = apply_ops fo t l /\
+                     fst (apply_op fo t1 o) <> RcOk.
+Proof. exact failed_program_prefix. Qed.
+Print Assumptions C15_failed_program_is_prefix.
+
+(* ================================================================== the patch decoder (_jbl_create_patch: jbn_patch_auto,
+   jbl_patch_from_json) as a grammar, for EVERY patch document the parsers can build.
+   Accepted = every element is an object whose members are acceptable: a member whose name is a PREFIX of "op" (tested first),
+   "value", "path", "from" (in this order; the empty name is a prefix of "op") takes that role; an "op" must be a string that is a
+   prefix of one of the nine operation names (first match in the order add, remove, replace, copy, move, test, increment,
+   add_create, swap), "path" / "from" must be strings; other members are ignored; the last member of a role wins.  Rejected:
+   JBL_ERROR_PATCH_INVALID or JBL_ERROR_PATCH_INVALID_OP.  The decoded operation is a function of the members alone (`decoded`):
+   a field without a member is 0 / NULL, whatever memory the array was carved from (the memset of _jbl_create_patch). *)
+Theorem C15_decoder_grammar : forall p, klidx_inv p ->
+  match create_patch p with
+  | inr ops => Forall opobj_ok (n_ch p) /\ ops = map decoded (n_ch p)
+  | inl e => ~ Forall opobj_ok (n_ch p) /\ (e = RcPatchInvalid \/ e = RcBadOp)
+  end.
+Proof. exact create_patch_grammar_inv. Qed.
+Print Assumptions C15_decoder_grammar.
+
+(* on operation objects written canonically (names exact or no prefix of a known name) the decoder is the rfc6902 reading *)
+Theorem C15_decoder_exact_on_canonical : forall p,
+  Forall (fun n => n_ty n = TObj /\ Forall canon_member (n_ch n)) (n_ch p) -> create_patch p = decode_ops_exact (n_ch p).
+Proof. exact create_patch_exact_on_canonical. Qed.
+Print Assumptions C15_decoder_exact_on_canonical.
+
+Definition ex_patch_doc (v : jval) : node := of_val 0 [] v.
+Definition str (s : list Z) := JStr s.
+(* [{"op":"move","from":"/a","path":"/b","note":1}] is canonical and decodes to move /a -> /b; the unknown member is ignored *)
+Example C15_ex_decoder_canonical :
+  let p := ex_patch_doc (JArr [JObj [(lit_op, str [109;111;118;101]); (lit_from, str [47;97]); (lit_path, str [47;98]);
+                                     ([110;111;116;101], JI64 1)]]) in
+  klidx_inv p /\ Forall (fun n => n_ty n = TObj /\ Forall canon_member (n_ch n)) (n_ch p) /\
+  create_patch p = inr [{| r_op := OMove; r_path := Some [47;98]; r_from := Some [47;97]; r_val := None |}].
+Proof.
+  cbv zeta. split; [apply of_val_inv1|]. split; [|reflexivity].
+  constructor; [|constructor]. split; [reflexivity|].
+  repeat (constructor; [split; [reflexivity | split; [reflexivity | intros T B; vm_compute in T, B; first [discriminate | reflexivity]]]|]). constructor.
+Qed.
+
+(* "accepts exactly the rfc6902 operation objects (plus the extensions)" is FALSE of the model and of the library:
+   {"o":"re","p":"/a"} is decoded as remove /a (rfc6902: no "op" member, no "path" member);
+   {"path":"/a","value":1} (no "op") is accepted, operation code 0, applied like add;
+   {"op":"add","path":"/a","value":1,"p":"/b"}: the member "p" (rfc6902 4: MUST be ignored) replaces the path: add /b.
+   Replayed on the library through jbn_patch_auto (mode ta) - see notes/jpatch.md. *)
+Theorem C15_decoder_accepts_more_refuted :
+  let p1 := ex_patch_doc (JArr [JObj [([111], str [114;101]); ([112], str [47;97])]]) in
+  let p2 := ex_patch_doc (JArr [JObj [(lit_path, str [47;97]); (lit_value, JI64 1)]]) in
+  let p3 := ex_patch_doc (JArr [JObj [(lit_op, str [97;100;100]); (lit_path, str [47;97]); (lit_value, JI64 1); ([112], str [47;98])]]) in
+  klidx_inv p1 /\ klidx_inv p2 /\ klidx_inv p3 /\
+  create_patch p1 = inr [{| r_op := ORemove; r_path := Some [47;97]; r_from := None; r_val := None |}] /\
+  decode_ops_exact (n_ch p1) = inr [empty_rawop] /\
+  (exists v, create_patch p2 = inr [{| r_op := ONone; r_path := Some [47;97]; r_from := None; r_val := Some v |}]) /\
+  (exists v, create_patch p3 = inr [{| r_op := OAdd; r_path := Some [47;98]; r_from := None; r_val := Some v |}] /\
+             decode_ops_exact (n_ch p3) = inr [{| r_op := OAdd; r_path := Some [47;97]; r_from := None; r_val := Some v |}]).
+Proof.
+  cbv zeta. split; [apply of_val_inv1|]. split; [apply of_val_inv1|]. split; [apply of_val_inv1|].
+  split; [reflexivity|]. split; [reflexivity|]. split; [eexists; reflexivity|]. eexists. split; reflexivity.
+Qed.
+Print Assumptions C15_decoder_accepts_more_refuted.
